@@ -4474,7 +4474,7 @@ namespace gch
 
         const ptr other_tail = std::swap_ranges (begin_ptr (), end_ptr (), other.begin_ptr ());
         uninitialized_move (other_tail, other.end_ptr (), end_ptr ());
-        destroy_range (other_tail, other.end_ptr ());
+        other.destroy_range (other_tail, other.end_ptr ());
 
         swap_size (other);
       }
@@ -4544,7 +4544,7 @@ namespace gch
             uninitialized_move (other.begin_ptr (), other.end_ptr (), new_data_ptr);
             GCH_TRY
             {
-              destroy_range (
+              other.destroy_range (
                 std::move (begin_ptr (), end_ptr (), other.begin_ptr ()),
                 other.end_ptr ());
             }
